@@ -136,6 +136,46 @@ def make_cases(ctx, rnd, tlc_inputs):
     return cases
 
 
+SMOOTH_INV = ["FixedShape", "OptimalShape", "MergeMinShape", "MergeTBShape", "ComboFilterShape", "FixedIdempotent", "SmExport"]
+
+
+def smooth_cases(ctx, rnd, focus):
+    """(A) Smooth.tla: the generative smoothers / combination filter satisfy the clauses on every small plate-size profile;
+    (B) every profile TLC explored becomes an input of the real operation"""
+    from harness import tlc
+    q = ctx.quick
+    scopes = [({"fixed", "optimal"}, {1}, 4 if q else 6, 4 if q else 5, 4 if q else 5, 1, 2, 1),
+              ({"mergemin", "mergetb"}, {1, 2}, 4 if q else 5, 3, 6 if q else 8, 1, 2, 1),
+              ({"combofilter"}, {1}, 1, 1, 1, 3, 2 if q else 3, 3)]
+    out = []
+    for ops, samples, mp, ms, maxparam, arity, ntreat, nrows in scopes:
+        c = {"NRows": nrows, "Samples": samples, "MaxParam": maxparam, "BugSeg": False, "BugNPL": False, "Export": True, "MaxPlates": mp,
+             "MaxSize": ms, "SmOps": ops, "Arity": arity, "NTreat": ntreat, "BugOpt": False}
+        r = ctx.tlc("Smooth", tlc.cfg(init="SmInit", next_="SmNext", constants=c, invariants=SMOOTH_INV),
+                    note="generative %s on all profiles: <=%d plates of <=%d experiments, %d sample(s), params <=%d" % (
+                        "/".join(sorted(ops)), mp, ms, len(samples), maxparam), coverage=True, workers=16)
+        if r.violation:
+            ctx.violation("design-level: Smooth violates %s" % r.violation, {"kind": "tlc", "tlc": r.violation_text[:3000]})
+        ctx.need_coverage(r, [{"fixed": "Fixed", "optimal": "Optimal", "mergemin": "MergeMin", "mergetb": "MergeTB", "combofilter": "ComboFilter"}[o]
+                              for o in ops])
+        got = r.by_tag("smooth-in")
+        budget = (250 if focus == "C13" else 120) if q else 6000
+        if len(got) > budget:
+            got = rnd.sample(got, budget)
+        for e in got:
+            rs = RScreen([(x["s"], tuple(x["ts"]), x["pl"], False) for x in e["rows"]])
+            out.append((e["op"], rs, (e["param"],) if e["op"] != "optimal" and e["op"] != "combofilter" else ()))
+    if focus == "C13":
+        # the counterexample TLC finds when only distinct plate sizes are scored is among the inputs (vacuity of 'retains the most')
+        c = {"NRows": 1, "Samples": {1}, "MaxParam": 1, "BugSeg": False, "BugNPL": False, "Export": False, "MaxPlates": 4, "MaxSize": 3,
+             "SmOps": {"optimal"}, "Arity": 1, "NTreat": 1, "BugOpt": True}
+        r = ctx.tlc("Smooth", tlc.cfg(init="SmInit", next_="SmNext", constants=c, invariants=["OptimalShape"]),
+                    note="BugOpt: scoring distinct sizes only must violate OptimalShape", workers=4)
+        if r.violation != "OptimalShape":
+            raise tlc.TLCError("Smooth.tla with BugOpt=TRUE does not violate OptimalShape: the clause is vacuous in this scope")
+    return out
+
+
 def run_retro(ctx, focus):
     from harness import tlc
     from harness.tracecheck import validate
@@ -157,6 +197,7 @@ def run_retro(ctx, focus):
     if len(tlc_inputs) > (90 if ctx.quick else 2500):
         tlc_inputs = rnd.sample(tlc_inputs, 90 if ctx.quick else 2500)
     cases = make_cases(ctx, rnd, tlc_inputs)
+    cases += smooth_cases(ctx, rnd, focus)
     seeds = 2 if ctx.quick else 12
     traces, not_returned, returned_by_op = [], {}, {}
     for op, rs, params in cases:
